@@ -509,6 +509,17 @@ def replay(ctx, rep):
         if bad:
             print("VIOLATION property=C12 replay=(replayed)")
         return 1 if bad else 0
+    elif rep.get("kind") == "host":
+        g = core.go_lines("host", [f"(host (main {G.hexs(rep['source'])}) (call {G.hexs('f')} {rep['arg']}))"])[0]
+        print(rep["source"])
+        print("arg:", rep["arg"])
+        print(g[:600])
+        bad = g.startswith(("CRASH", "HANG"))
+        if bad:
+            print("VIOLATION property=C12 replay=(replayed)")
+        else:
+            print("(the call no longer crashes; re-run the check for the full verdict)")
+        return 1 if bad else 0
     else:
         print("replay names a broken obligation, not an input:", rep)
         return 1
